@@ -232,6 +232,11 @@ func regPrelude(pkg string) {
 		if name == "steps" {
 			return Const(64, uint64(s.steps))
 		}
+		if len(name) > 5 && name[:5] == "stub:" {
+			// how often a stub was hit so far on any path of this run is not path-specific;
+			// per-path counters are kept for the worker model only
+			return Const(64, uint64(s.counters[name]))
+		}
 		return Const(64, uint64(s.counters[name]))
 	})
 	simple(p+"vCounterAdd", func(s *State, a []Value) Value {
